@@ -80,7 +80,7 @@ def groups(tier, seed):
     out = []
     for i, (label, X) in enumerate(_datas(tier, seed)):
         out.append(dict(mode="explicit", label=label, X=X, tier=tier))
-        if label.startswith("L") and i % (50 if tier == "quick" else 5) != 0:
+        if label.startswith("L") and i % (50 if tier == "quick" else 400) != 0:
             continue
         out.append(dict(mode="calibrated", label=label, X=X, tier=tier))
     return out
@@ -115,7 +115,7 @@ def cases(group):
         for nt in (1, 2, 4):
             for init in ([0, N - 1, "random"] if not thorough else _inits(N)):
                 for n in ([N, None] if not thorough else [N, None, max(1, N - 1)]):
-                    yield dict(mode="calibrated", X=X, init=init, legs=[n], n_trial=nt, equal="all" if thorough and nt == 1 and N <= 5 else "single")
+                    yield dict(mode="calibrated", X=X, init=init, legs=[n], n_trial=nt, equal="all" if thorough and nt == 1 and N <= 5 and init == 0 and n == N and not group["label"].startswith("L") else "single")
 
 
 # --------------------------------------------------------------------------------------
